@@ -106,12 +106,19 @@ impl<R: BufRead> Iterator for Sequences<R> {
                 if let Some(record) = next_record {
                     let record = record.unwrap();
                     self.current_record += 1;
+                    #[cfg(feature = "verif_hooks")]
+                    crate::verif::emit(
+                        "seq.take",
+                        &[(self.current_record - 1) as u64, record.seq().len() as u64],
+                    );
                     return Some(Sequence {
                         n: self.current_record - 1,
                         id: record.id().to_string(),
                         seq: record.seq().to_vec(),
                     });
                 }
+                #[cfg(feature = "verif_hooks")]
+                crate::verif::emit("seq.take_none", &[]);
                 None
             }
             RecordSet::Fasta(ref mut records) => {
@@ -119,12 +126,19 @@ impl<R: BufRead> Iterator for Sequences<R> {
                 if let Some(record) = next_record {
                     let record = record.unwrap();
                     self.current_record += 1;
+                    #[cfg(feature = "verif_hooks")]
+                    crate::verif::emit(
+                        "seq.take",
+                        &[(self.current_record - 1) as u64, record.seq().len() as u64],
+                    );
                     return Some(Sequence {
                         n: self.current_record - 1,
                         id: record.id().to_string(),
                         seq: record.seq().to_vec(),
                     });
                 }
+                #[cfg(feature = "verif_hooks")]
+                crate::verif::emit("seq.take_none", &[]);
                 None
             }
         }
